@@ -641,7 +641,7 @@ func (x *CommonLex) nameIsNodeType(name string) bool {
 
 func (x *CommonLex) nameIsAxisName(name string) bool {
 	switch name {
-	case "ancestor-or-self", "attribute", "child", "descendant",
+	case "ancestor", "ancestor-or-self", "attribute", "child", "descendant",
 		"descendant-or-self", "following", "following-sibling",
 		"namespace", "parent", "preceding", "preceding-sibling", "self":
 		return true
